@@ -365,3 +365,44 @@ reg("C17",
     level_text="plot_one_point_each is proved in Coq for every result set in the property's domain and EVERY permutation of arrival (invariant of the re-ordering buffer, unbounded); rows_sorted, lttb_identity, lttb_rejects_1_2, lttb_structure (any selection oracle) and lttb_buckets_exact are proved for all counts and thresholds with exact rational bucket bounds. Tie: differential runs through the exported plot API (HTML data block parsed back) and lttb.Downsample with a recording iterator.",
     technique="Coq invariant proof of the re-ordering buffer over all permutations; structural LTTB proof; differential correspondence",
     timeout={"quick": 600, "thorough": 3000})
+
+_CODEC_GEN = ("results with texts from a 32-entry alphabet rich in quotes, commas, LF, lone CR, leading/trailing blanks, tabs, NBSP/NEL/U+3000 "
+              "first runes, U+2028/9, <>&, backslashes, emoji and the literal \\\\.; full 64-bit ranges of seq / bytes, codes 0..65535, latencies "
+              "incl. 0, negative and MaxInt64-sized; timestamps 1970..2200 with nanoseconds in five zones; nil / empty / text / random bodies; nil / "
+              "empty / 1..3-key multi-valued canonical headers")
+reg("C07",
+    rule="streams of 1..6 (every 10th 20..40) " + _CODEC_GEN + "; each stream is encoded and decoded by the real gob, CSV and JSON codecs, the CSV and JSON "
+         "bytes are read by the model's independently written readers, and the Result type's fields are enumerated by reflection; every 25th case carries a "
+         "CR LF inside a text (tag csv.crlf); all cases non-trivial",
+    clauses={1: "CSV: decoding the encoded stream does not return an equal sequence then end-of-stream", 2: "JSON: decoding the encoded stream does not return an equal sequence then end-of-stream",
+             3: "gob: decoding the encoded stream does not return an equal sequence then end-of-stream", 4: "CSV: an independent reader of the documented 12-column layout disagrees with the written stream",
+             5: "JSON: an independent reader of the documented field names/units disagrees with the written stream", 6: "the Result type has a field the documented layouts do not cover",
+             7: "CSV: a text containing CR LF does not round-trip",
+             8: "CSV: a stream with CR LF inside a text decodes to something other than the same records with CR LF read as LF"},
+    diffs={20: "model encoders differ byte-wise from the implementation's and a property clause fails"},
+    assumptions=["gob payload encoding is library code: assumed to round-trip (hypothesis of gob_roundtrip_assumed), sampled on every run; its framing is modelled",
+                 "encoding/csv, net/textproto (MIME header block), time formatting and the easyjson lexer are library code: reference models (Model/Csv.v, Model/ResultCodec.v, Model/Json.v)",
+                 "byte-wise differences between model and implementation encoders with all property clauses holding are declared don't-care (quoting style is free)"],
+    level_text="csv_fields_roundtrip (Go's CSV reader recovers every field sequence without CR LF from the writer's output, all field contents, unbounded), rfc_csv_roundtrip (all fields), csv_crlf_refuted, b64_roundtrip, dec_roundtrip and csv_columns_documented are proved in Coq; the CSV and JSON layouts of the model are written from the documentation and act as the independent readers; tie by differential runs of the three real codecs.",
+    technique="Coq round-trip proofs of the codec components; independent-reader differential correspondence",
+    timeout={"quick": 900, "thorough": 3000})
+reg("C08", needs_cli=True,
+    rule="streams of 1..10 " + _CODEC_GEN + " (bodies of 4096/5000/70000 bytes in one record of six, a first record without headers/body/error in one stream of three) in each encoding, "
+         "read through a reader that returns 1, 2, 7, 512, 4095, 4096, 4097 or 65536 bytes per call (fixed or varying) and handed to DecoderFor; every 9th case is input in none "
+         "of the formats (empty, text, binary, a CSV row with too few fields, truncated JSON); every 5th case re-encodes a file through a chain of 1..4 formats with the real `vegeta encode`; all cases non-trivial",
+    clauses={1: "no decoder was selected for a stream in one of the three encodings", 2: "the selected decoder does not yield exactly the encoded sequence (something lost, duplicated or altered while sniffing)",
+             3: "a decoder was returned for input that is in none of the formats", 4: "a transcoding chain does not decode to the original sequence"},
+    assumptions=["'input in format F' means F's decoder decodes a first record (DESIGN 7.1); near-valid foreign input being accepted is not a violation"],
+    level_text="decoder_for_replays (the reader handed to the chosen decoder yields exactly the original stream, for every chunking and every read-ahead of the trial decoders), decoder_for_first_success and transcode_chain are proved in Coq over a stream algebra with adversarial chunking; tie by real DecoderFor runs over chunked readers and real `vegeta encode` chains.",
+    technique="Coq proof over a stream algebra (tee/multi-reader replay); differential correspondence incl. the CLI",
+    timeout={"quick": 900, "thorough": 3000})
+reg("C09",
+    rule="streams of 1..12 " + _CODEC_GEN + " (bodies up to 2000 / 20000 bytes) written by the real encoders through a writer that records the offset after every Encode call; gob and JSON "
+         "streams are cut at every byte offset (long streams in quick: a stride plus every record boundary +-2) and CSV streams at every record boundary, each prefix decoded by the real decoder; all cases non-trivial",
+    exhaustive="cut points of each generated gob / JSON stream up to 6000 bytes (all streams in thorough); record boundaries of CSV streams",
+    clauses={1: "a cut stream decoded to something other than exactly the records completely written before the cut", 2: "an Encode call left a partial record in the stream"},
+    diffs={10: "gob frame boundaries of the model do not cover the record boundaries", 11: "JSON line count differs from the record count"},
+    assumptions=["gob payload is opaque; only its length-prefixed framing is modelled"],
+    level_text="frames_cut_prefix (length-prefixed frames: every cut yields exactly the complete frames before it) and lines_cut_prefix (newline framing) are proved in Coq for every stream and every cut offset; json_no_raw_newline shows the JSON encoder emits exactly one newline per record; tie: every cut offset of every generated stream decoded by the real decoders.",
+    technique="Coq prefix lemmas for the two framings over all cut offsets; exhaustive cut enumeration on the implementation",
+    timeout={"quick": 900, "thorough": 3000})
